@@ -272,6 +272,10 @@ def run_C09(ctx, E):
         os.environ["C09_DEADLINE_MS"] = "20000"
     # functional: every abstract pool -> DNA parts -> clone.GoldenGate at GOMAXPROCS 1, 2, 16 with seeded yields
     stage_mc_replay(ctx, E, "pools", "C09_MC", "C09_MC_%s.cfg" % ctx.tier, timeout=3000)
+    # designed assemblies: 1..3 (4, and 6 with one fragment per slot) junctions, libraries, decoys, flipped parts
+    stage_mc_replay(ctx, E, "designed", "C09_Designed", "C09_Designed_%s.cfg" % ctx.tier, timeout=3000, workers=1)
+    if ctx.tier == "thorough":
+        stage_mc_replay(ctx, E, "designed6", "C09_Designed", "C09_Designed_thorough6.cfg", timeout=3000, workers=1)
     if ctx.tier == "thorough":
         os.environ.pop("POLYDRV_CHILD", None)
         os.environ.pop("POLYDRV_NO_RLIMIT", None)
